@@ -32,6 +32,7 @@ type SrvCfg struct {
 	Squash       string `json:"squash,omitempty"`
 	MaxFileSize  int64  `json:"max_file_size,omitempty"`
 	Secure       bool   `json:"secure,omitempty"`
+	ViaTuning    bool   `json:"via_tuning,omitempty"` // as a runtime update: through UpdateTuningOptions (transfer size only)
 }
 
 func (c SrvCfg) options() absnfs.ExportOptions {
@@ -1507,6 +1508,11 @@ func runSeqWorld(o *Outcome, sc *SeqScn, cfg SrvCfg) *seqRun {
 }
 
 func (r *seqRun) applyUpdate(c *SrvCfg) {
+	if c.ViaTuning {
+		r.w.NFS.UpdateTuningOptions(func(tu *absnfs.TuningOptions) { tu.TransferSize = c.TransferSize })
+		r.transfer = absnfs.VerifTuning(r.w.NFS).TransferSize
+		return
+	}
 	opts := r.w.NFS.GetExportOptions()
 	opts.TransferSize = c.TransferSize
 	opts.MaxFileSize = c.MaxFileSize
@@ -1595,7 +1601,11 @@ func (r *seqRun) stepC23(name string, op Op, hr handleRef, base *mnode) {
 		r.cl.Dead = false
 		r.cl.last = time.Time{} // force a reconnect for the following operations
 	} else if wres.Status != 0 {
-		r.vio("C23.write-within-limits-refused", fmt.Sprintf("status=%d", wres.Status), "%s: WRITE count=%d (wtmax=%d, wtpref=%d, transfer size %d) refused with %s", name, wcount, fi.Wtmax, fi.Wtpref, r.transfer, nfsclient.NFSStatName(wres.Status))
+		facts := fmt.Sprintf("status=%d", wres.Status)
+		if sc := r.sc; sc.UpdCfg != nil && sc.UpdAt < 0 && r.transfer < int(fi.Wtmax) && int(wcount) > r.transfer {
+			facts += ",transfer-size-lowered-after-fsinfo"
+		}
+		r.vio("C23.write-within-limits-refused", facts, "%s: WRITE count=%d (wtmax=%d, wtpref=%d, transfer size %d) refused with %s", name, wcount, fi.Wtmax, fi.Wtpref, r.transfer, nfsclient.NFSStatName(wres.Status))
 	} else {
 		if wres.Count == 0 || wres.Count > wcount {
 			r.vio("C23.write-count", "", "%s: WRITE count=%d reply count=%d", name, wcount, wres.Count)
